@@ -123,7 +123,7 @@ def run(ctx):
             ctx.violation(v[0], dict(submitters=n, init=init, body=body, bound=bound, schedule=[]), v[1])
         ctx.case(key=(n, init, body, ()), nontrivial=False)
         for p in E4.first_level(s0, bound):
-            items.append((n, init, body, bound, p, 4000 if th else 600))
+            items.append((n, init, body, bound, p, 400 if th else 600))
     ctx.coverage["configs"] = [dict(submitters=n, init=i, body=b, preemption_bound=k) for n, i, b, k in configs]
     ctx.coverage["subtrees"] = len(items)
     ctx.coverage["determinism_checks"] = len(det)
